@@ -86,6 +86,9 @@ def build(arch, in_space, out_dim, hidden, seed):
 def split_vars(in_space, overlap):
     if len(in_space) == 1:
         return list(in_space), list(in_space)
+    if overlap and len(in_space) >= 3:
+        # PARTIAL overlap: the parts share the middle variable(s), each brings one the other does not have
+        return list(in_space[:-1]), list(in_space[1:][::-1])
     if overlap:
         return list(in_space), list(in_space[::-1][:max(1, len(in_space) - 1)])
     return list(in_space[:1]), list(in_space[1:])
@@ -214,7 +217,21 @@ def run_item(item):
                 res["evals"] += 1
                 try:
                     o2 = model(pts(cs, order0)).as_tensor.detach()
-                except Exception:
+                except Exception as e:
+                    # a composition accepts every batch its parts accept (the parts alone are asked first)
+                    if arch.startswith(("Parallel", "Sequential")) and hasattr(model, "models"):
+                        try:
+                            first = model.models[0]
+                            parts_ok = True
+                            for part in (model.models if arch.startswith("Parallel") else [first]):
+                                part(pts(cs, order0))
+                        except Exception:
+                            parts_ok = False
+                        if parts_ok:
+                            viol("C08|error|%s|batch-arrangement|%s" % (type(e).__name__, arch.split("(")[0]),
+                                 "batch shape %s is accepted by the parts but the composition raised %s: %s" % (shape, type(e).__name__, str(e)[:100]))
+                            ok = False
+                            continue
                     res["rejected"] += 1      # batch arrangement not accepted by this architecture
                     continue
                 if tuple(o2.shape[:-1]) != tuple(shape) or not torch.allclose(o2.reshape(6, -1), ref, rtol=2e-5, atol=2e-6):
